@@ -106,6 +106,7 @@ type LoopInfo struct {
 
 type FnCtx struct {
 	allocEvents []*allocEvent
+	fieldStoreOrd map[*ssa.Store]int
 	eng         *Engine
 	fn          *ssa.Function
 	contract    *FuncContract
